@@ -291,7 +291,9 @@ def expected_pv(pl, rs):
         return "err", "bad-signature"
     if sig != sign(idx[0], DOMAIN + rs):
         return "err", "bad-signature"
-    return "ok", derive(kb)
+    # the id of the received bytes (what litep2p derives) or of the canonical re-encoding of the same key (what the
+    # libp2p reference derives): both are "the identity key whose hash is P"
+    return "ok", (derive(kb), derive(key_enc(data)))
 
 
 def pv_op(pl, rs):
@@ -670,9 +672,9 @@ def oracle(case, out):
                 want, what = expected_pv(pl, rs)
                 w = o.split()
                 if want == "ok":
-                    if w[:2] != ["ok", what.hex()]:
+                    if w[0] != "ok" or w[1] not in (what[0].hex(), what[1].hex()):
                         v("reject-valid" if w[0] != "ok" else "wrong-id",
-                          f"a payload whose key signed this session's static key must yield ok {what.hex()}, got {o!r}", i)
+                          f"a payload whose key signed this session's static key must yield ok {what[0].hex()}, got {o!r}", i)
                 elif w[0] == "ok":
                     v("accept-invalid", f"accepted ({o!r}) a payload that must be rejected"
                       f"{' as ' + what if what else ''}: the advertised key did not sign this static key", i)
